@@ -673,6 +673,9 @@ func (in *Interp) typeAssert(instr *ssa.TypeAssert, itf iface) value {
 }
 
 func (in *Interp) implements(t types.Type, it *types.Interface) bool {
+	if n, ok := synthName(t); ok && strings.HasPrefix(n, "opaque.") && !strings.HasPrefix(n, "opaque.context.") {
+		return true // an opaque host object satisfies the interface it was created for; calling it is unsupported
+	}
 	if sy, ok := in.synthMethods(t); ok {
 		for i := 0; i < it.NumMethods(); i++ {
 			if !sy[it.Method(i).Name()] {
